@@ -113,6 +113,12 @@ def _transformations():
         ('add_indirect_effect', lambda m: pm.add_indirect_effect(m, 'linear')),
         ('add_metabolite', lambda m: pm.add_metabolite(m)),
         ('set_direct_effect(emax)', lambda m: pm.set_direct_effect(m, 'emax')),
+        # the same numeric constant once as int and once as float (different content: the
+        # serialised statement differs) - must not depend on which one the process met first
+        ('set_zero_order_input(250)', lambda m: pm.set_zero_order_input(m, 'CENTRAL', 250)),
+        ('set_zero_order_input(250.0)', lambda m: pm.set_zero_order_input(m, 'CENTRAL', 250.0)),
+        ('set_initial_condition(10)', lambda m: pm.set_initial_condition(m, 'CENTRAL', 10)),
+        ('set_initial_condition(10.0)', lambda m: pm.set_initial_condition(m, 'CENTRAL', 10.0)),
         ('add_derivative', lambda m: pm.add_derivative(m)),
         ('add_derivative(ETA_CL)', lambda m: pm.add_derivative(m, with_respect_to=['ETA_CL'])),
         ('set_proportional_error_model(log)', lambda m: pm.set_proportional_error_model(m, data_trans='log(Y)')),
@@ -255,7 +261,15 @@ def node_main(args):
     if args.store or args.retrieve:
         from pharmpy.workflows import LocalModelDirectoryDatabase
         db = LocalModelDirectoryDatabase(args.store or args.retrieve)
-    for i in range(args.start, args.start + args.count):
+    indices = list(range(args.start, args.start + args.count))
+    # every node walks the batch in its own order (identity / reversed / shuffled): a key that
+    # depends on what the process has seen before (caches, counters) then differs between nodes
+    if args.order == 'reversed':
+        indices.reverse()
+    elif args.order == 'shuffled':
+        import random as _random
+        _random.Random(args.batch * 7919 + args.start).shuffle(indices)
+    for i in indices:
         tape = Tape(seed=args.batch * 1_000_003 + i)
         family = ('plain', 'commute', 'rebuild', 'rename', 'differs', 'unloaded')[i % 6]
         rec = {'index': i, 'family': family}
@@ -470,6 +484,7 @@ def node_main(args):
             rec['error'] = f'{type(e).__name__}: {e}'[:300]
         out.append(rec)
     del stored
+    out.sort(key=lambda r: (r['index'] < 0, r['index'] if r['index'] >= 0 else -r['index']))
     with open(args.out, 'w') as fh:
         json.dump(out, fh)
     return 0
@@ -478,14 +493,14 @@ def node_main(args):
 # --------------------------------------------------------------------------
 # coordinator side
 # --------------------------------------------------------------------------
-def run_node(hashseed, batch, start, count, out, store=None, retrieve=None, env_extra=None):
+def run_node(hashseed, batch, start, count, out, store=None, retrieve=None, env_extra=None, order='identity'):
     env = dict(os.environ)
     env['PYTHONHASHSEED'] = str(hashseed)
     env['VERIF_NO_REEXEC'] = '1'
     if env_extra:
         env.update(env_extra)
     cmd = [PY, os.path.abspath(__file__), '--node', '--batch', str(batch), '--start', str(start),
-           '--count', str(count), '--out', out]
+           '--count', str(count), '--out', out, '--order', order]
     if store:
         cmd += ['--store', store]
     if retrieve:
@@ -626,9 +641,10 @@ def run_batch(batch, count, hashseeds, scratch, env_extra=None, start=0, per_nod
     rest = [j for j in jobs if j[0] != 0]
     for (ni, hs, s, n, o) in first:
         procs.append((run_node(hs, batch, s, n, o, store=dbdir + f'_{s}', env_extra=env_extra), o))
+    orders = ('identity', 'reversed', 'shuffled')
     for (ni, hs, s, n, o) in rest:
         if ni != 1:
-            procs.append((run_node(hs, batch, s, n, o, env_extra=env_extra), o))
+            procs.append((run_node(hs, batch, s, n, o, env_extra=env_extra, order=orders[ni % 3]), o))
     errs = []
     for p, o in procs:
         so, se = p.communicate(timeout=3000)
@@ -637,7 +653,8 @@ def run_batch(batch, count, hashseeds, scratch, env_extra=None, start=0, per_nod
     procs = []
     for (ni, hs, s, n, o) in rest:
         if ni == 1:
-            procs.append((run_node(hs, batch, s, n, o, retrieve=dbdir + f'_{s}', env_extra=env_extra), o))
+            procs.append((run_node(hs, batch, s, n, o, retrieve=dbdir + f'_{s}', env_extra=env_extra,
+                                   order='reversed'), o))
     for p, o in procs:
         so, se = p.communicate(timeout=3000)
         if p.returncode != 0:
@@ -672,14 +689,17 @@ def main(argv):
         if args.replay:
             with open(args.replay) as fh:
                 doc = json.load(fh)
-            outs, errs = run_batch(doc['batch'], 1, doc['hashseeds'], scratch, start=max(doc['index'], 0))
+            # the whole chunk the model belonged to is re-run (same processing orders), so that a
+            # key that depends on the process history reproduces as well
+            outs, errs = run_batch(doc['batch'], doc.get('chunk_count', 1), doc['hashseeds'], scratch,
+                                   start=doc.get('chunk_start', max(doc['index'], 0)))
             if errs:
                 print('HARNESS-ERROR ' + '; '.join(errs))
                 return 2
             viol, _ = compare(doc['batch'], outs, doc['hashseeds'])
             for sig, detail, idx in viol:
                 print(f'  {sig}: {detail}')
-            if any(sig == doc['signature'] for sig, _, _ in viol):
+            if any(sig == doc['signature'] and idx_ == doc['index'] for sig, _, idx_ in viol):
                 print(f'VIOLATION property={PROP} replay={args.replay}')
                 return 1
             print('replay: no violation')
@@ -711,7 +731,10 @@ def main(argv):
             path = os.path.join(VERIF, 'replays', f'{PROP}-{sig.split("/", 1)[1].replace("/", "_")}-'
                                                   f'{args.seed}-{idx}.json')
             with open(path, 'w') as fh:
+                csize = -(-count // chunks)
+                cstart = (max(idx, 0) // csize) * csize
                 json.dump({'property': PROP, 'batch': args.seed, 'index': idx, 'hashseeds': hashseeds,
+                           'chunk_start': cstart, 'chunk_count': min(csize, count - cstart),
                            'signature': sig, 'detail': detail,
                            'record': next((r for r in outs[0] if r['index'] == idx), None)}, fh, indent=1)
             # confirm in fresh processes
@@ -798,5 +821,6 @@ if __name__ == '__main__':
         ap.add_argument('--out')
         ap.add_argument('--store')
         ap.add_argument('--retrieve')
+        ap.add_argument('--order', default='identity')
         sys.exit(node_main(ap.parse_args()))
     sys.exit(main(sys.argv[1:]))
